@@ -18,9 +18,9 @@ type travInfo struct {
 	tb        *TermBuilder
 	selfCalls []*ssa.Call
 	dups      []*ssa.Call // repeated calls with the same arguments as an earlier one
-	callArgs  [][]*Term // per self call, the non-receiver argument terms
-	guard     *Term     // condition guarding the second call (true edge)
-	baseFalse []*Term   // conditions that must be false for the recursion to happen
+	callArgs  [][]*Term   // per self call, the non-receiver argument terms
+	guard     *Term       // condition guarding the second call (true edge)
+	baseFalse []*Term     // conditions that must be false for the recursion to happen
 	width     *ssa.Function
 	bitEvent  ssa.Instruction
 	hashEvent ssa.Instruction
@@ -160,7 +160,8 @@ func checkC11(p *Program, r *Report) {
 		"flag, and handle the flag bit before the hash before the children; the two builders also agree on the subtree-hash function and on the range of " +
 		"leaves that sets a parent flag. C11.pack: flag bits are packed (builders) and unpacked (extractor) with the same (i/8, i%8) addressing and the byte " +
 		"count is ⌈bits/8⌉. C11.sibling: the two filter-driven builders obtain the match set from the same function and fill matched bits, index list, hashes " +
-		"and message fields from the same sources. Not decided: that the emitted proof is the canonical BIP37 tree for every subset (value level); merkle-root equality."
+		"and message fields from the same sources. C11.accepts: the extractor applies exactly the rejection rules the specification lists and no other (a proof the " +
+		"builders emit is not rejected by an extra rule). Not decided: that the emitted proof is the canonical BIP37 tree for every subset (value level); merkle-root equality."
 	r.Trusted = []string{"blockchain.HashMerkleBranches", "wire.MsgMerkleBlock.AddTxHash"}
 	b1 := p.Func("bloom", "(*merkleBlock).traverseAndBuild")
 	b2 := p.Func("merkleblock", "(*MerkleBlock).traverseAndBuild")
